@@ -418,6 +418,17 @@ def detect_cflags(vd, vm):
         else:
             flags.append('1')
             notes[SWITCHES[k]] = 'neither variant matches: ' + ' '.join(ct)[:300]
+    # the history tables have two repaired forms (no covering = '0', covering with inner histories first = '2'): the
+    # emitted tables tell them apart
+    if flags[2] == '0':
+        x = cases[2]
+        rc, mo, _ = run_lines(vm, ['tables %s0 %s' % (''.join(flags[:2]), G.sx_tree(x['tree'])), 'tables %s2 %s' % (''.join(flags[:2]), G.sx_tree(x['tree']))])
+        t = x.get('tables_gcc', '')
+        if t != mo[0] and t == mo[1]:
+            flags[2] = '2'
+            notes[SWITCHES[2]] = 'absent (covering, inner histories first)'
+        elif t == mo[0]:
+            notes[SWITCHES[2]] = 'absent (no covering)'
     return ''.join(flags), notes, cases
 
 
@@ -688,7 +699,7 @@ def run(c):
     # the variant read from the template text must be the one the witnesses show
     src = (c.notes.get('translators', {}).get('tr_cgen', {}) or {}).get('cg_source')
     if src is not None:
-        srcflags = ''.join('1' if src[n] else '0' for n in SWITCHES)
+        srcflags = ''.join('1' if src[n] else '0' for n in SWITCHES[:2]) + str((c.notes.get('translators', {}).get('tr_cgen', {}) or {}).get('history_cover_mode', 1))
         c.notes['variant_from_source_text'] = srcflags
         if srcflags != vflags:
             c.violation({'kind': 'translator', 'what': 'tr_cgen.py reads variant %s from ChartToC.cpp, the witness charts show %s: the template changed in a way the translator does not see' % (srcflags, vflags)}, no_input=True)
